@@ -36,6 +36,7 @@ import (
 	esgzexternaltoc "github.com/containerd/stargz-snapshotter/estargz/externaltoc"
 	estargzconvert "github.com/containerd/stargz-snapshotter/nativeconverter/estargz"
 	"github.com/containerd/stargz-snapshotter/util/ioutils"
+	"github.com/containerd/stargz-snapshotter/util/verifhook"
 	"github.com/opencontainers/go-digest"
 	ocispecspec "github.com/opencontainers/image-spec/specs-go"
 	ocispec "github.com/opencontainers/image-spec/specs-go/v1"
@@ -118,6 +119,7 @@ func layerConvert(layerConvertFunc func(estargz.Compression) converter.ConvertFu
 		cm := esgzexternaltoc.NewGzipCompressionWithLevel(nil, compressionLevel)
 		c := cm.(*esgzexternaltoc.GzipCompression)
 		cf := layerConvertFunc(c)
+		verifhook.Gate("externaltoc.opts.appended", desc.Digest)
 		desc2, err := cf(ctx, cs, desc)
 		if err != nil {
 			return desc2, err
@@ -132,7 +134,10 @@ func layerConvert(layerConvertFunc func(estargz.Compression) converter.ConvertFu
 		if err != nil {
 			return nil, err
 		}
+		verifhook.Gate("externaltoc.mapwrite.ready", desc.Digest)
+		verifhook.Gate("externaltoc.mapwrite.begin", desc.Digest)
 		esgzDigest2TOC[layerDgst] = tocInfo{dgst, size}
+		verifhook.Event("externaltoc.mapwrite.end", desc.Digest, layerDgst, dgst)
 		return desc2, nil
 	}
 	finalizeFunc := func(ctx context.Context, cs content.Store, ref string, desc *ocispec.Descriptor) (*images.Image, error) {
